@@ -465,3 +465,28 @@ Theorem glb_from_system_thm pow32 eps aeps t tol die areas edges raw fuel max_it
   glbfloor (solver_of pow32 eps t die areas edges raw) aeps t fuel max_iter ms cells = Finished ms' cells' ->
   GlbOK aeps (sys_tol tol ms) die ms ms' cells'.
 Proof. intros. eapply glb_from_system; eauto. Qed.
+
+(* ------------------------------------------------------------------ *)
+(* a decision procedure for Feasible (used by the examples)            *)
+(* ------------------------------------------------------------------ *)
+Definition holdsb (tol : Qc) (asg : var -> Qc) (c : con) : bool :=
+  match crel c with
+  | LE => Qcleb (eval asg (clhs c)) (eval asg (crhs c) + tol)
+  | GE => Qcleb (eval asg (crhs c)) (eval asg (clhs c) + tol)
+  | EQ => Qcleb (eval asg (clhs c)) (eval asg (crhs c) + tol) && Qcleb (eval asg (crhs c)) (eval asg (clhs c) + tol)
+  end.
+Definition in_boundsb (asg : var -> Qc) (d : vdecl) : bool :=
+  match vlb d with Some lb => Qcleb lb (asg (vvar d)) | None => true end &&
+  match vub d with Some ub => Qcleb (asg (vvar d)) ub | None => true end.
+Definition feasibleb (tol : Qc) (s : system) (asg : var -> Qc) : bool :=
+  forallb (in_boundsb asg) (svars s) && forallb (holdsb tol asg) (scons s).
+
+Lemma feasibleb_ok tol s asg : feasibleb tol s asg = true -> Feasible tol s asg.
+Proof.
+  unfold feasibleb, Feasible. intro H. apply andb_true_iff in H. destruct H as [B C]. split; apply Forall_forall.
+  - intros d Hd. rewrite forallb_forall in B. specialize (B d Hd). unfold in_boundsb in B. apply andb_true_iff in B.
+    destruct B as [B1 B2]. split; intros q E; rewrite E in *; qb2p; assumption.
+  - intros c Hc. rewrite forallb_forall in C. specialize (C c Hc). unfold holdsb, holds in *.
+    destruct (crel c); [qb2p; exact C|qb2p; exact C|].
+    apply andb_true_iff in C. destruct C as [C1 C2]. qb2p. split; assumption.
+Qed.
